@@ -39,10 +39,12 @@ for d in sys.argv[1:]:
         res["demo_cmd"] = demo_cmd
         rc, out, _ = run("git apply %s/demo.diff" % d, wt)
         res["demo_applies"] = rc == 0
+        run("git diff --name-only | xargs -r touch; sleep 1", wt)
         rc1, out1, w1 = run("timeout 600 " + demo_cmd, wt, timeout=700, env=env)
         res["demo_with_patch"] = {"exit": rc1, "tail": out1[-600:], "wall_s": round(w1)}
         rc, out, _ = run("git apply -R %s/patch.diff" % d, wt)
         res["patch_reverts"] = rc == 0
+        run("git diff --name-only | xargs -r touch; git ls-files -m | xargs -r touch; touch src/lib.rs; sleep 1", wt)
         rc2, out2, w2 = run("timeout 600 " + demo_cmd, wt, timeout=700, env=env)
         res["demo_without_patch"] = {"exit": rc2, "tail": out2[-300:], "wall_s": round(w2)}
         res["confirmed"] = bool(res["patch_applies"] and passed == 44 and failed == 0 and rc1 != 0 and rc2 == 0)
